@@ -23,6 +23,7 @@ def run(tier, only=None):
             for pl in plens:
                 conds.append(Cond("harness.h_c09", "h_paths", t, part=sh * 100 + start * 10 + pl,
                                   label="h_paths[shape=%d,start=%d,plen=%d]" % (sh, start, pl)))
+    conds.append(Cond("harness.h_c09", "h_shift_long", t, part=0, label="h_shift_long[12 children, two same-named at symbolic positions]"))
     if only:
         conds = [c for c in conds if only in c.label]
     conds.sort(key=lambda c: 0 if "h_paths" in c.label and c.label.endswith("plen=3]") else 1)
